@@ -901,6 +901,17 @@ def _count_loops(fn):
                                  body=st.body + [ast.AugAssign(target=ast.Name(id=x, ctx=ast.Store()), op=ast.Add(), value=step)])
                 out.append(ast.copy_location(loop, st))
                 continue
+            # N42b: for X in range(A, B, S): BODY  ->  X = A; while X < B: BODY; X += S   (three-argument form only; the tree under
+            # analysis has none, so this is always a step towards the reference spelling; X not rebound in BODY, no own continue)
+            if it is not None and isinstance(it, ast.Call) and not it.keywords and len(it.args) == 3 and isinstance(it.func, ast.Name) and it.func.id == 'range' and \
+                    isinstance(st.target, ast.Name) and not st.orelse and not own_continue(st.body) and \
+                    not any(isinstance(n, ast.Name) and n.id == st.target.id and isinstance(n.ctx, ast.Store) for b in st.body for n in ast.walk(b)):
+                x = st.target.id
+                out.append(ast.copy_location(ast.Assign(targets=[ast.Name(id=x, ctx=ast.Store())], value=it.args[0]), st))
+                loop = ast.While(test=ast.Compare(left=ast.Name(id=x, ctx=ast.Load()), ops=[ast.Lt()], comparators=[it.args[1]]), orelse=[],
+                                 body=st.body + [ast.AugAssign(target=ast.Name(id=x, ctx=ast.Store()), op=ast.Add(), value=it.args[2])])
+                out.append(ast.fix_missing_locations(ast.copy_location(loop, st)))
+                continue
             out.append(st)
         return out
     fn.body = rewrite(fn.body)
